@@ -10,11 +10,14 @@
 //! untouched since the previous idle point. At the end every idle point's signal values are
 //! rendered from scratch (fresh mount) and compared with what was on screen then.
 use either_of::Either;
+#[allow(deprecated)]
+use reactive_graph::wrappers::read::MaybeSignal;
 use reactive_graph::{
-    computed::Memo,
+    computed::{ArcMemo, Memo},
     owner::{on_cleanup, Owner},
-    signal::{ArcRwSignal, RwSignal},
+    signal::{ArcRwSignal, ReadSignal, RwSignal},
     traits::{Get, GetUntracked, Set},
+    wrappers::read::{ArcSignal, Signal},
 };
 use std::{
     cell::RefCell,
@@ -163,13 +166,25 @@ pub(crate) enum E {
 #[derive(Clone, Debug)]
 enum V {
     Static(i64),
-    Text(i64, E),
-    Elem(Vec<(i64, i64, E)>, Vec<V>),
+    /// dynamic text; `repr` 0 closure, 1 `Arc<dyn Fn>`, 2 `Arc<Mutex<dyn FnMut>>`, 3..11 the signal itself
+    /// (RwSignal, ReadSignal, Memo, Signal, MaybeSignal, ArcRwSignal, ArcReadSignal, ArcMemo, ArcSignal)
+    Text(i64, E, i64),
+    /// props `(kind label expr repr flag)`: kind 0 title, 1 class, 2 class:on, 3 style:width, 4 style (whole),
+    /// 5 class = Option (None when 0), 6 Either-valued attribute (title / class by the enclosing value);
+    /// flag 1: the class / style name is taken from the value of the enclosing conditional
+    Elem(Vec<(i64, i64, E, i64, i64)>, Vec<V>),
     If(i64, bool, E, Arc<V>, Arc<V>),
-    /// `move || { let a = sync_expr; Suspend::new(async move { wait; a + async_expr }) }`
-    Async(i64, E, E),
+    /// `move || { let a = sync_expr; Suspend::new(async move { wait; a + async_expr }) }`; content kind 0 text,
+    /// 1 `<div>{text}</div>`, 2 a fragment of two texts (value, value + 1)
+    Async(i64, E, E, i64),
     /// `move || keyed(lists[signal], key = item, row = "index*100 + item")` (the ForEnumerate shape)
     Keyed(i64, usize, Vec<Vec<i64>>),
+    /// wide mode (audit): `move || EitherOfN::X(arms[e mod n])`, n = 3 / 4 / 5
+    Nway(i64, E, Vec<Arc<V>>),
+    /// a fragment of 0..3 views (as a branch root, too)
+    Frag(Vec<V>),
+    /// `kid.add_any_attr(lang(move || e))` on the typed view (an element, or a closure: `AddAnyAttr for F`)
+    Spread(i64, E, Arc<V>),
 }
 
 pub(crate) fn dec_expr(s: &Sexp) -> E {
@@ -182,13 +197,20 @@ pub(crate) fn dec_expr(s: &Sexp) -> E {
 fn dec_view(s: &Sexp) -> V {
     match s.at(0).num() {
         0 => V::Static(s.at(1).num()),
-        1 => V::Text(s.at(1).num(), dec_expr(s.at(2))),
+        1 => V::Text(s.at(1).num(), dec_expr(s.at(2)), s.at(3).num()),
         2 => V::Elem(
-            s.at(1).list().iter().map(|p| (p.at(0).num(), p.at(1).num(), dec_expr(p.at(2)))).collect(),
+            s.at(1)
+                .list()
+                .iter()
+                .map(|p| (p.at(0).num(), p.at(1).num(), dec_expr(p.at(2)), p.at(3).num(), p.at(4).num()))
+                .collect(),
             s.at(2).list().iter().map(dec_view).collect(),
         ),
-        4 => V::Async(s.at(1).num(), dec_expr(s.at(2)), dec_expr(s.at(3))),
+        4 => V::Async(s.at(1).num(), dec_expr(s.at(2)), dec_expr(s.at(3)), s.at(4).num()),
         5 => V::Keyed(s.at(1).num(), s.at(2).num() as usize, s.at(3).list().iter().map(|l| l.nums()).collect()),
+        6 => V::Nway(s.at(1).num(), dec_expr(s.at(2)), s.at(3).list().iter().map(|a| Arc::new(dec_view(a))).collect()),
+        7 => V::Frag(s.at(1).list().iter().map(dec_view).collect()),
+        8 => V::Spread(s.at(1).num(), dec_expr(s.at(2)), Arc::new(dec_view(s.at(3)))),
         _ => V::If(
             s.at(1).num(),
             s.at(2).num() != 0,
@@ -297,20 +319,146 @@ fn tuple_any(mut vs: Vec<AnyView>) -> AnyView {
     }
 }
 
+/// wide mode: per logical signal, the same information as `String` / `bool` signals for the attribute kinds
+/// whose signal representations need them (written together with the number)
+#[derive(Clone)]
+pub(crate) struct Twin {
+    cls: ArcRwSignal<String>,
+    flag: ArcRwSignal<bool>,
+    px: ArcRwSignal<String>,
+    sty: ArcRwSignal<String>,
+}
+thread_local! {
+    pub(crate) static TWINS: RefCell<Vec<Twin>> = const { RefCell::new(Vec::new()) };
+}
+pub(crate) fn init_twins(vals: &[i64]) {
+    let l = vals
+        .iter()
+        .map(|v| Twin {
+            cls: ArcRwSignal::new(format!("c{v}")),
+            flag: ArcRwSignal::new(*v != 0),
+            px: ArcRwSignal::new(format!("{v}px")),
+            sty: ArcRwSignal::new(format!("width: {v}px")),
+        })
+        .collect();
+    TWINS.with(|t| *t.borrow_mut() = l);
+}
+pub(crate) fn write_twin(i: usize, v: i64) {
+    let t = TWINS.with(|t| t.borrow().get(i).cloned());
+    if let Some(t) = t {
+        t.cls.set(format!("c{v}"));
+        t.flag.set(v != 0);
+        t.px.set(format!("{v}px"));
+        t.sty.set(format!("width: {v}px"));
+    }
+}
+fn twin(i: usize) -> Twin {
+    TWINS.with(|t| t.borrow()[i].clone())
+}
+
+/// `$body` with `$x` bound to the chosen representation of a reactive value: `$clos` as a closure (0), an
+/// `Arc<dyn Fn>` (1), a SharedReactiveFunction (2), or — when the expression is one signal — the signal
+/// `$arc` itself in one of its nine types (3..11)
+macro_rules! reprs {
+    ($repr:expr, $arc:expr, $t:ty, $clos:expr, $x:ident => $body:expr) => {{
+        #[allow(deprecated)]
+        match $repr {
+            0 => {
+                let $x = $clos;
+                $body
+            }
+            1 => {
+                let f = $clos;
+                let $x: Arc<dyn Fn() -> $t + Send + Sync> = Arc::new(f);
+                $body
+            }
+            2 => {
+                let f = $clos;
+                let $x: Arc<Mutex<dyn FnMut() -> $t + Send>> = Arc::new(Mutex::new(f));
+                $body
+            }
+            r => {
+                let arc: ArcRwSignal<$t> = ($arc).expect("harness: a signal representation needs a single-signal expression");
+                match r {
+                    3 => {
+                        let $x: RwSignal<$t> = RwSignal::from(arc);
+                        $body
+                    }
+                    4 => {
+                        let $x: ReadSignal<$t> = ReadSignal::from(arc.read_only());
+                        $body
+                    }
+                    5 => {
+                        let a = arc.clone();
+                        let $x = Memo::new(move |_| a.get());
+                        $body
+                    }
+                    6 => {
+                        let $x: Signal<$t> = Signal::from(arc);
+                        $body
+                    }
+                    7 => {
+                        let $x: MaybeSignal<$t> = MaybeSignal::from(arc);
+                        $body
+                    }
+                    8 => {
+                        let $x = arc;
+                        $body
+                    }
+                    9 => {
+                        let $x = arc.read_only();
+                        $body
+                    }
+                    10 => {
+                        let a = arc.clone();
+                        let $x = ArcMemo::new(move |_| a.get());
+                        $body
+                    }
+                    _ => {
+                        let $x: ArcSignal<$t> = ArcSignal::from(arc);
+                        $body
+                    }
+                }
+            }
+        }
+    }};
+}
+
+/// the signal an expression consists of, if it is exactly one signal
+fn single(e: &E) -> Option<usize> {
+    match e {
+        E::Sig(i) => Some(*i),
+        _ => None,
+    }
+}
+
+const CLASS_NAMES: [&str; 2] = ["on", "alt"];
+const STYLE_NAMES: [&str; 2] = ["width", "height"];
+
 fn mk(v: &V, s: &Sigs) -> AnyView {
+    mk_env(v, s, 0)
+}
+
+/// `env`: the value of the nearest enclosing plain conditional (0 outside): class / style names with
+/// flag 1 and Either-valued attributes are chosen by it, so that an in-place rebuild changes them
+fn mk_env(v: &V, s: &Sigs, env: i64) -> AnyView {
     match v {
         V::Static(n) => n.to_string().into_any(),
-        V::Text(l, e) => {
-            let (l, e, s) = (*l, e.clone(), s.clone());
-            (move || {
+        V::Text(l, e, repr) => {
+            let (l, e2, s2) = (*l, e.clone(), s.clone());
+            if *repr >= 3 {
+                // the signal itself is the child: its value is rendered as a number
+                let arc = single(e).and_then(|i| s.get(i).map(|x| ArcRwSignal::from(*x)));
+                return reprs!(*repr, arc, i64, move || 0i64, x => x.into_any());
+            }
+            reprs!(*repr, None::<ArcRwSignal<String>>, String, move || {
                 log(l);
                 on_cleanup(move || log(l + CLEANUP));
-                eval(&e, &s).to_string()
-            })
-            .into_any()
+                eval(&e2, &s2).to_string()
+            }, x => x.into_any())
         }
-        V::Async(l, es, ea) => {
-            let (l, es, ea, s) = (*l, es.clone(), ea.clone(), s.clone());
+        V::Async(l, es, ea, ckind) => {
+            let (l, es, ea, s, ckind) = (*l, es.clone(), ea.clone(), s.clone(), *ckind);
             (move || {
                 log(l);
                 let a = eval(&es, &s);
@@ -320,7 +468,12 @@ fn mk(v: &V, s: &Sigs) -> AnyView {
                     if let Some(rx) = rx {
                         let _ = rx.await;
                     }
-                    (a + eval(&ea, &s)).to_string()
+                    let n = a + eval(&ea, &s);
+                    match ckind {
+                        1 => div().child(n.to_string()).into_any(),
+                        2 => (n.to_string(), (n + 1).to_string()).into_any(),
+                        _ => n.to_string().into_any(),
+                    }
                 })
             })
             .into_any()
@@ -348,37 +501,12 @@ fn mk(v: &V, s: &Sigs) -> AnyView {
             .into_any()
         }
         V::Elem(props, kids) => {
-            let mut attrs: Vec<AnyAttribute> = vec![];
-            for (k, l, e) in props {
-                let (l, e, s) = (*l, e.clone(), s.clone());
-                attrs.push(match k {
-                    0 => title(move || {
-                        log(l);
-                        eval(&e, &s).to_string()
-                    })
-                    .into_any_attr(),
-                    1 => class(move || {
-                        log(l);
-                        format!("c{}", eval(&e, &s))
-                    })
-                    .into_any_attr(),
-                    2 => class(("on", move || {
-                        log(l);
-                        eval(&e, &s) != 0
-                    }))
-                    .into_any_attr(),
-                    _ => style(("width", move || {
-                        log(l);
-                        format!("{}px", eval(&e, &s))
-                    }))
-                    .into_any_attr(),
-                });
-            }
+            let attrs = mk_props(props, s, env);
             let el = div().add_any_attr(attrs);
             if kids.is_empty() {
                 el.into_any()
             } else {
-                el.child(tuple_any(kids.iter().map(|k| mk(k, s)).collect())).into_any()
+                el.child(tuple_any(kids.iter().map(|k| mk_env(k, s, env)).collect())).into_any()
             }
         }
         V::If(l, memo, c, a, b) => {
@@ -391,9 +519,9 @@ fn mk(v: &V, s: &Sigs) -> AnyView {
                     let on = m.get();
                     log(l);
                     if on {
-                        Either::<AnyView, AnyView>::Left(mk(&a, &s))
+                        Either::<AnyView, AnyView>::Left(mk_env(&a, &s, 0))
                     } else {
-                        Either::Right(mk(&b, &s))
+                        Either::Right(mk_env(&b, &s, 0))
                     }
                 })
                 .into_any()
@@ -401,16 +529,170 @@ fn mk(v: &V, s: &Sigs) -> AnyView {
                 let c = c.clone();
                 (move || {
                     log(l);
-                    if eval(&c, &s) != 0 {
-                        Either::<AnyView, AnyView>::Left(mk(&a, &s))
+                    let n = eval(&c, &s);
+                    if n != 0 {
+                        Either::<AnyView, AnyView>::Left(mk_env(&a, &s, n))
                     } else {
-                        Either::Right(mk(&b, &s))
+                        Either::Right(mk_env(&b, &s, n))
                     }
                 })
                 .into_any()
             }
         }
+        V::Nway(l, e, arms) => {
+            use either_of::{EitherOf3, EitherOf4, EitherOf5};
+            let (l, e, arms, s) = (*l, e.clone(), arms.clone(), s.clone());
+            type A = AnyView;
+            match arms.len() {
+                3 => (move || {
+                    log(l);
+                    let n = eval(&e, &s);
+                    let x = mk_env(&arms[n.rem_euclid(3) as usize], &s, n);
+                    match n.rem_euclid(3) {
+                        0 => EitherOf3::<A, A, A>::A(x),
+                        1 => EitherOf3::B(x),
+                        _ => EitherOf3::C(x),
+                    }
+                })
+                .into_any(),
+                4 => (move || {
+                    log(l);
+                    let n = eval(&e, &s);
+                    let x = mk_env(&arms[n.rem_euclid(4) as usize], &s, n);
+                    match n.rem_euclid(4) {
+                        0 => EitherOf4::<A, A, A, A>::A(x),
+                        1 => EitherOf4::B(x),
+                        2 => EitherOf4::C(x),
+                        _ => EitherOf4::D(x),
+                    }
+                })
+                .into_any(),
+                _ => (move || {
+                    log(l);
+                    let n = eval(&e, &s);
+                    let x = mk_env(&arms[n.rem_euclid(5) as usize], &s, n);
+                    match n.rem_euclid(5) {
+                        0 => EitherOf5::<A, A, A, A, A>::A(x),
+                        1 => EitherOf5::B(x),
+                        2 => EitherOf5::C(x),
+                        3 => EitherOf5::D(x),
+                        _ => EitherOf5::E(x),
+                    }
+                })
+                .into_any(),
+            }
+        }
+        V::Frag(kids) => {
+            let vs: Vec<AnyView> = kids.iter().map(|k| mk_env(k, s, env)).collect();
+            if vs.len() == 2 {
+                // a typed pair; other sizes as a Vec (its own marker node)
+                let mut it = vs.into_iter();
+                (it.next().unwrap(), it.next().unwrap()).into_any()
+            } else {
+                vs.into_any()
+            }
+        }
+        V::Spread(l, e, kid) => {
+            use tachys::html::attribute::lang;
+            let (l, e, s2) = (*l, e.clone(), s.clone());
+            let attr = lang(move || {
+                log(l);
+                eval(&e, &s2).to_string()
+            });
+            match &**kid {
+                V::Elem(props, kids) => {
+                    let attrs = mk_props(props, s, env);
+                    let el = div().add_any_attr(attrs);
+                    if kids.is_empty() {
+                        el.add_any_attr(attr).into_any()
+                    } else {
+                        el.child(tuple_any(kids.iter().map(|k| mk_env(k, s, env)).collect())).add_any_attr(attr).into_any()
+                    }
+                }
+                V::If(l2, false, c, a, b) => {
+                    // `AddAnyAttr for F`: a new closure that spreads onto whatever the closure returns
+                    let (l2, c, a, b, s) = (*l2, c.clone(), a.clone(), b.clone(), s.clone());
+                    (move || {
+                        log(l2);
+                        let n = eval(&c, &s);
+                        if n != 0 {
+                            Either::<AnyView, AnyView>::Left(mk_env(&a, &s, n))
+                        } else {
+                            Either::Right(mk_env(&b, &s, n))
+                        }
+                    })
+                    .add_any_attr(attr)
+                    .into_any()
+                }
+                other => mk_env(other, s, env).add_any_attr(attr).into_any(),
+            }
+        }
     }
+}
+
+fn mk_props(props: &[(i64, i64, E, i64, i64)], s: &Sigs, env: i64) -> Vec<AnyAttribute> {
+    let mut attrs: Vec<AnyAttribute> = vec![];
+    for (k, l, e, repr, flag) in props {
+        let (l, e, s) = (*l, e.clone(), s.clone());
+        let sig = single(&e);
+        let cname = CLASS_NAMES[if *flag != 0 { env.rem_euclid(2) as usize } else { 0 }];
+        let sname = STYLE_NAMES[if *flag != 0 { env.rem_euclid(2) as usize } else { 0 }];
+        attrs.push(match k {
+            0 => {
+                let arc = sig.and_then(|i| s.get(i).map(|x| ArcRwSignal::from(*x)));
+                if *repr >= 3 {
+                    reprs!(*repr, arc, i64, move || 0i64, x => title(x).into_any_attr())
+                } else {
+                    reprs!(*repr, None::<ArcRwSignal<String>>, String, move || {
+                        log(l);
+                        eval(&e, &s).to_string()
+                    }, x => title(x).into_any_attr())
+                }
+            }
+            1 => reprs!(*repr, sig.map(|i| twin(i).cls), String, move || {
+                log(l);
+                format!("c{}", eval(&e, &s))
+            }, x => class(x).into_any_attr()),
+            2 => reprs!(*repr, sig.map(|i| twin(i).flag), bool, move || {
+                log(l);
+                eval(&e, &s) != 0
+            }, x => class((cname, x)).into_any_attr()),
+            3 => reprs!(*repr, sig.map(|i| twin(i).px), String, move || {
+                log(l);
+                format!("{}px", eval(&e, &s))
+            }, x => style((sname, x)).into_any_attr()),
+            4 => reprs!(*repr, sig.map(|i| twin(i).sty), String, move || {
+                log(l);
+                format!("width: {}px", eval(&e, &s))
+            }, x => style(x).into_any_attr()),
+            5 => class(move || {
+                log(l);
+                let n = eval(&e, &s);
+                (n != 0).then(|| format!("c{n}"))
+            })
+            .into_any_attr(),
+            _ => {
+                // an Either-valued attribute: `title=` on even, `class=` on odd values of the enclosing conditional
+                type BoxFn = Box<dyn FnMut() -> String + Send>;
+                type Ei = Either<tachys::html::attribute::Attr<tachys::html::attribute::Title, BoxFn>, tachys::html::class::Class<BoxFn>>;
+                let (e2, s2) = (e.clone(), s.clone());
+                if env.rem_euclid(2) == 0 {
+                    let f: BoxFn = Box::new(move || {
+                        log(l);
+                        eval(&e, &s).to_string()
+                    });
+                    Ei::Left(title(f)).into_any_attr()
+                } else {
+                    let f: BoxFn = Box::new(move || {
+                        log(l);
+                        format!("c{}", eval(&e2, &s2))
+                    });
+                    Ei::Right(class(f)).into_any_attr()
+                }
+            }
+        });
+    }
+    attrs
 }
 
 // ------------------------------------------------------------------ observation
@@ -432,6 +714,19 @@ fn elem_props(n: &Node) -> Sexp {
         .find(|s| s.0 == "width")
         .map(|s| num_of(s.1.trim_end_matches("px")))
         .unwrap_or(-1);
+    if WIDE.with(|w| w.get()) {
+        // wide mode: also the alternative class / style names and the spread `lang`
+        let alt = classes.iter().any(|c| c == "alt") as i64;
+        let css = n.styles();
+        // the whole-style form (`style=`) lands in the attribute
+        let from_attr = n.get_attribute("style").and_then(|v| {
+            v.split(';').find_map(|d| d.split_once(':').filter(|(k, _)| k.trim() == "width").map(|(_, x)| num_of(x.trim().trim_end_matches("px"))))
+        });
+        let w = css.iter().find(|s| s.0 == "width").map(|s| num_of(s.1.trim_end_matches("px"))).or(from_attr).unwrap_or(-1);
+        let h = css.iter().find(|s| s.0 == "height").map(|s| num_of(s.1.trim_end_matches("px"))).unwrap_or(-1);
+        let lang = n.get_attribute("lang").map(|v| num_of(&v)).unwrap_or(-1);
+        return Lst(vec![Num(t), Num(c), Num(on), Num(w), Num(alt), Num(h), Num(lang)]);
+    }
     Lst(vec![Num(t), Num(c), Num(on), Num(w)])
 }
 
@@ -472,6 +767,8 @@ pub(crate) fn top(root: &Node, prev: &HashMap<u64, u64>, with_status: bool) -> (
 thread_local! {
     /// extended cases (async leaves / keyed lists): a snapshot is the list of the root's nodes
     pub(crate) static EXT: std::cell::Cell<bool> = const { std::cell::Cell::new(false) };
+    /// wide cases (audit): seven element properties instead of four
+    pub(crate) static WIDE: std::cell::Cell<bool> = const { std::cell::Cell::new(false) };
 }
 
 /// case `(view sigs steps)` or, extended, `(view sigs steps (drain))`: then a step is
@@ -489,15 +786,23 @@ pub fn run(c: &Sexp) -> Sexp {
     FUTURES.lock().unwrap().clear();
     let ext = c.list().len() > 3;
     EXT.with(|e| e.set(ext));
+    // `(view sigs steps (drain) (2 early))`: the wide grammar of the audit; `early`: the first step's writes
+    // happen before any task of the mounted view was polled
+    let wide = c.at(4).at(0).num() == 2;
+    let early = wide && c.at(4).at(1).num() != 0;
+    WIDE.with(|w| w.set(wide));
     let owner = Owner::new();
     owner.set();
     let view = dec_view(c.at(0));
     let sigs: Sigs = Arc::new(c.at(1).list().iter().map(|x| RwSignal::new(x.num())).collect());
+    init_twins(&c.at(1).nums());
 
     let root = Dom::create_element("div", None);
     let mut state = mk(&view, &sigs).build();
     state.mount(&root, None);
-    exec::run_all(&[]);
+    if !early {
+        exec::run_all(&[]);
+    }
 
     let mut out: Vec<(Vec<i64>, Sexp, Vec<i64>)> = vec![];
     let take_log = || std::mem::take(&mut *LOG.lock().unwrap());
@@ -508,6 +813,7 @@ pub fn run(c: &Sexp) -> Sexp {
         for w in step.at(0).list() {
             if let Some(sig) = sigs.get(w.at(0).num() as usize) {
                 sig.set(w.at(1).num());
+                write_twin(w.at(0).num() as usize, w.at(1).num());
             }
         }
         exec::run_all(&step.at(1).nums());
@@ -529,7 +835,7 @@ pub fn run(c: &Sexp) -> Sexp {
         out.push((take_log(), s, values(&sigs)));
     }
 
-    if c.list().len() > 4 {
+    if c.list().len() > 4 && !wide {
         // reduced observation (compared with the model): what is on screen at every idle point
         drop(state);
         owner.cleanup();
@@ -544,8 +850,9 @@ pub fn run(c: &Sexp) -> Sexp {
     let plain = |s: &Sexp| strip_status(s);
     let mut res = vec![];
     for (lg, shot, vals) in out {
-        for (sig, v) in sigs.iter().zip(vals.iter()) {
+        for (i, (sig, v)) in sigs.iter().zip(vals.iter()).enumerate() {
             sig.set(*v);
+            write_twin(i, *v);
         }
         let fresh_root = Dom::create_element("div", None);
         FRESH.with(|r| r.set(true));
@@ -562,6 +869,8 @@ pub fn run(c: &Sexp) -> Sexp {
     drop(owner);
     exec::reset();
     LOG.lock().unwrap().clear();
+    WIDE.with(|w| w.set(false));
+    TWINS.with(|t| t.borrow_mut().clear());
     Lst(res)
 }
 
